@@ -3,6 +3,7 @@ CONSTANTS
   MaxOps = 4
   Groups = {"listns", "mat", "tree"}
   Big = FALSE
+  Focus = ""
   Wide = FALSE
   ShipDsAdd = FALSE
   ShipMatPartial = FALSE
